@@ -451,7 +451,7 @@ fn check_special(which: &usize, cx: &mut Cx) -> Res {
             let og = |args: &[&str]| {
                 let mut cmd = std::process::Command::new("git");
                 crate::gitlab::git_env(&mut cmd);
-                cmd.env("GIT_AUTHOR_DATE", "1600000000 +0000").env("GIT_COMMITTER_DATE", "1600000000 +0000");
+                cmd.env("GIT_AUTHOR_DATE", "1500000000 +0530").env("GIT_COMMITTER_DATE", "1600000000 +0000");
                 cmd.current_dir(&o).args(args).output().ok();
             };
             og(&["init", "-q", "-b", "main", "."]);
